@@ -17,7 +17,8 @@ Fixpoint keys_distinct (l : list (cbor * cbor)) : Prop :=
 Fixpoint normal (c : cbor) : Prop :=
   match c with
   | CUint n | CNint n => 0 <= n < two64
-  | CBytes b | CText b => blen b < two64
+  | CBytes b => blen b < two64
+  | CText b => blen b < two64 /\ utf8_valid b = true
   | CArray l => blen l < two64 /\ (fix all (l : list cbor) := match l with [] => True | x :: r => normal x /\ all r end) l
   | CMap l => blen l < two64 /\ keys_distinct l
               /\ (fix all (l : list (cbor*cbor)) := match l with [] => True | (k,v) :: r => normal k /\ normal v /\ all r end) l
@@ -46,6 +47,7 @@ Qed.
 Lemma normal_wf : forall c, normal c -> wf c.
 Proof.
   induction c using cbor_ind'; cbn [normal wf]; intros Hn; rewrite ?two64_eq; try exact Hn.
+  - exact (proj1 Hn).
   - destruct Hn as [Hl Hn]. split; [assumption|]. induction l as [|x l IH]; [exact I|]. inversion H as [|? ? Hx Hr]; subst.
     destruct Hn as [Hnx Hnl]. split; [auto|]. apply IH; [assumption| |assumption]. unfold blen in *. cbn [length] in Hl. lia.
   - destruct Hn as (Hl & _ & Hn). split; [assumption|]. induction l as [|[k v] l IH]; [exact I|]. inversion H as [|? ? Hx Hr]; subst.
@@ -112,6 +114,18 @@ Proof.
   - destruct Hn.
   - destruct Hn as (_ & H2 & H3 & Hn). assert ((t =? 2) = false) as -> by lia. assert ((t =? 3) = false) as -> by lia.
     rewrite (IHc Hn). reflexivity.
+Qed.
+
+Lemma normal_utf8 : forall c, normal c -> utf8_ok c = true.
+Proof.
+  induction c using cbor_ind'; cbn [normal utf8_ok]; intros Hn; try reflexivity.
+  - exact (proj2 Hn).
+  - destruct Hn as [_ Hn]. induction l as [|x l IH]; [reflexivity|]. cbn [forallb]. inversion H as [|? ? Hx Hl]; subst.
+    destruct Hn as [Hnx Hnl]. rewrite (Hx Hnx), (IH Hl Hnl). reflexivity.
+  - destruct Hn as (_ & _ & Hn). induction l as [|[k v] l IH]; [reflexivity|]. cbn [forallb]. inversion H as [|? ? Hx Hl]; subst.
+    cbn [fst snd] in Hx. destruct Hx as [Hk Hv]. destruct Hn as (Hnk & Hnv & Hnl). rewrite (Hk Hnk), (Hv Hnv), (IH Hl Hnl). reflexivity.
+  - destruct Hn.
+  - destruct Hn as (_ & _ & _ & Hn). exact (IHc Hn).
 Qed.
 
 (* ---- validate_cbor accepts every encoding ---- *)
@@ -190,7 +204,7 @@ Theorem dec_ser c : normal c -> dec (ser c) = Ok c.
 Proof.
   intros Hn. unfold dec, ser. rewrite (unpyn_normal c Hn). pose proof (normal_wf c Hn) as Hw.
   rewrite (validate_encode c Hw). cbn [bind]. rewrite <- (app_nil_r (encode c)). rewrite (loads_encode c [] Hw).
-  apply pyn_normal. assumption.
+  rewrite (normal_utf8 c Hn). apply pyn_normal. assumption.
 Qed.
 
 Lemma ensure_cbor_bytes b : ensure_cbor (CBytes b) = b.
